@@ -717,6 +717,17 @@ class BaseProperty(base.BaseObject):
                 raise ValueError("odml.Property.merge: "
                                  "src and dest value_origin are in conflict!")
 
+        # Strict extend refuses values of a different inferred dtype, e.g. a 'string'
+        # Property is not extended by a text value containing a line break. Catch this
+        # here; there is no rollback once attributes and sibling objects have been merged.
+        to_add = [val for val in source.values if val not in self._values]
+        if self._values and to_add and not self.dtype.endswith("-tuple"):
+            type_check = dtypes.infer_dtype(to_add[0])
+            if type_check != self.dtype and \
+                    not (type_check == "string" and self.dtype in dtypes.special_dtypes):
+                raise ValueError("odml.Property.merge: src value data type (\"%s\") does "
+                                 "not match dest dtype \"%s\"!" % (type_check, self.dtype))
+
     def merge(self, other, strict=True):
         """
         Merges the Property 'other' into self, if possible. Information
